@@ -1223,7 +1223,11 @@ class GaussianState(State):
 
         np = self._connector.np
 
-        return np.real(2**self.d / np.sqrt(np.linalg.det(self.xxpp_covariance_matrix)))
+        hbar = self._config.hbar
+
+        return np.real(
+            hbar**self.d / np.sqrt(np.linalg.det(self.xxpp_covariance_matrix))
+        )
 
     def purify(self) -> "GaussianState":
         """
